@@ -118,11 +118,17 @@ pub fn describe(c: &BCfg) -> J {
 }
 
 pub fn execute(c: &BCfg, seed: u64) -> W {
-    let ctx = Ctx::new(ScriptSrc::Table(c.scripts.clone()), 1, seed, c.perturb, false);
+    let ctx = Ctx::new(ScriptSrc::Table(c.scripts.clone()), 2, seed, c.perturb, false);
     let w = W::new(ctx, vec![StoreCfg { policy: c.policy, cap: c.cap, n_red: c.n_red, n_mw: c.n_mw, name: "rsvb".into(), ctor: 0 }]);
     let mut keep = Vec::new();
-    for _ in 0..c.n_sub {
-        keep.push(w.add_direct(0, NOGATE, false, true, false));
+    let released = std::sync::Arc::new(Counter::new());
+    for i in 0..c.n_sub {
+        if i == 0 {
+            let r2 = released.clone();
+            keep.push(w.add_direct_sub(0, true, |sub| sub.unsub_counter = Some(r2)));
+        } else {
+            keep.push(w.add_direct(0, NOGATE, false, true, false));
+        }
     }
     if let Some((cap, pol)) = c.chan {
         keep.push(w.add_channeled(0, cap, pol, NOGATE, false, true, false));
@@ -236,6 +242,13 @@ pub fn execute(c: &BCfg, seed: u64) -> W {
                 }
             }
             halt.store(true, Ordering::Relaxed);
+            // a stop() that needed >= 2.5 s is "slow" if the reducer loop does finish (its last act is
+            // releasing the subscribers) and "completed only by its timeout" if it never does
+            let slow = w.ctx.log.bufs.lock().unwrap().iter().any(|(_, b)| b.lock().unwrap().iter().any(|e| e.k == K::StopRet && e.idx != STOP_CLOSE && e.y >= 2500));
+            if slow && !released.wait_at_least(1, 120) {
+                w.mark(900, 9);
+                w.ctx.gates[1].wait();
+            }
         }
         // post-stop probes through every entry point, from the stopper thread and (after join) again
         for (k, ep) in [EP_INHERENT, EP_STORE_TRAIT, EP_DISPATCHER, EP_THUNK].iter().enumerate() {
@@ -400,6 +413,14 @@ pub fn run(seed: u64, tiny: bool, focus: &str) -> Outcome {
     c04(&h, 0, &mut v, "C15");
     crate::fam_d::c14(&h, 0, &mut v);
     crate::fam_c::c05(&h, 0, &mut v);
+    // every call of the scenario returned (it completed) and no stop() was left to its timeout with
+    // the loop still running (the controller would have parked): C13 on stop-race programs
+    v.evaluated.insert("C13");
+    if stop_timed_out(&h, 0) {
+        v.inconcl("C13", "a stop() took >= 2.5 s but the reducer loop finished (slow, not wedged)".into());
+    } else if c.n_prod >= 2 {
+        v.nontrivial.insert("C13");
+    }
     c01(&h, 0, &mut v);
     c02(&h, 0, &mut v);
     crate::oracle_m::c18(&h, &w, 0, &mut v);
